@@ -30,4 +30,16 @@ RxByte(rx, b) ==
       [] OTHER -> IF rx.disc THEN rx ELSE [rx EXCEPT !.buf = Append(@, b)]
 
 RxBytes(rx, bytes) == FoldLeft(RxByte, rx, bytes)
+
+(* Length check.  The ASH text bounds the data field of a DATA frame to 3 .. 128 bytes and has the receiver discard a   *)
+(* frame of any other length.  bellows accepts shorter and somewhat longer ones; the property asks for "length checks"   *)
+(* of a specification-derived decoder, so for a DATA candidate outside 3 .. 128 both are behaviours: discarded like any  *)
+(* unparsable candidate (one NAK, nothing upward), or handled as the DATA frame it decodes to (the WHOLE payload).       *)
+OddLength(f) == f.type = "DATA" /\ (Len(f.pl) < 3 \/ Len(f.pl) > 128)
+CandidateAlts(rx) ==
+    IF OddLength(Decode(rx.buf))
+    THEN {Candidate(rx), [rx EXCEPT !.buf = <<>>, !.out = Append(@, W(Nak(rx.h.rx)))]}
+    ELSE {Candidate(rx)}
+RxByteAlts(rx, b) == IF b = FLAG /\ ~rx.disc /\ rx.buf # <<>> THEN CandidateAlts(rx) ELSE {RxByte(rx, b)}
+RxBytesAlts(rx, bytes) == FoldLeft(LAMBDA S, b : UNION {RxByteAlts(r, b) : r \in S}, {rx}, bytes)
 =============================================================================
